@@ -13,10 +13,17 @@ Executable model of samply's perf.data converter (C01, C17, C02, C14, C19), foll
 * the slice of `fxprof_processed_profile::Profile` the converter uses: `add_process`, `add_thread`,
   `set_{process,thread}_{name,start_time,end_time}`, pid/tid suffixing (`make_unique_pid_or_tid`).
 
-Not modelled: unwinding from user stacks (no `user_regs` in generated records), jitdump / perf-map /
-marker files, kernel modules, simpleperf tables, context-switch records (C12 has the module model),
-per-CPU threads, markers, counters, files present on disk (`add_module_to_process` case 2 is modelled
-separately in `Model/SvmaBias.lean`).
+Perf-map files (`/tmp/perf-<pid>.map`, `shared/perf_map.rs`) are part of the configuration (`Config.perfMaps`:
+the lines of the file of each pid, as they are on disk while the recording is converted); the loader, the JIT
+symbol classification and the JS label frames are in `Model/ConvFlush.lean`. `--per-cpu-threads` is
+`Config.ncpu` (number of CPUs, 0 = off); the per-CPU thread entries and their samples are derived at flush
+time (`ConvFlush.cpuViews`).
+
+Not modelled: unwinding from user stacks (no `user_regs` in generated records), jitdump / marker files,
+kernel modules, simpleperf tables, context-switch records (C12 has the module model), markers, counters,
+frame categories, the JIT function recycler of `--reuse-threads` (perf maps and per-CPU threads are modelled
+for `reuse = false` only), files present on disk (`add_module_to_process` case 2 is modelled separately in
+`Model/SvmaBias.lean`).
 
 Core Lean only (linked into the driver executables).
 -/
@@ -42,6 +49,12 @@ structure Config where
   fold : Bool := false
   /-- `first_sample_time` from the SAMPLE_TIME feature section (0 when absent) -/
   ref : Nat := 0
+  /-- the perf map files present while the recording is converted: pid ↦ lines of `/tmp/perf-<pid>.map` in
+  file order (a pid without entry has no file) -/
+  perfMaps : List (Nat × List (List Char)) := []
+  /-- `--per-cpu-threads`: number of CPUs of the recording (0 = option off); the CPU of a sample is a fixed
+  function of its timestamp (`cpuOf`), the same in the harness's perf.data writer -/
+  ncpu : Nat := 0
 deriving Repr
 
 /-! ## Profile entry tables (the part of `Profile` the converter drives) -/
@@ -69,16 +82,37 @@ deriving Repr, DecidableEq
 /-! ## Library mappings (abstract live list; `Model/LibMappings.lean` + C11 show that the real
 `LibMappings` BTreeMap refines exactly this) -/
 
+/-- `JsName` of jit_category_manager.rs (the string handle is the string) -/
+inductive JsName
+  | selfHosted (s : String)
+  | nonSelfHosted (s : String)
+deriving Repr, DecidableEq
+
+/-- `JsFrame` of jit_category_manager.rs; `NativeFrameIsJs` is never constructed (dead code) -/
+inductive JsFrame
+  /-- `RegularInAdditionToNativeFrame` -/
+  | regular (n : JsName)
+  /-- `BaselineInterpreterStub` -/
+  | stub (n : JsName)
+  /-- `BaselineInterpreter` -/
+  | baselineInterp
+deriving Repr, DecidableEq
+
+/-- one mapping: address range, relative address at its start, library path, and `LibMappingInfo::js_frame`
+(`none` for regular libraries, `classify name` for a perf-map function) -/
 structure MapAdd where
   start : Nat
   end_ : Nat
   rel : Nat
   lib : String
+  js : Option JsFrame := none
 deriving Repr, DecidableEq
 
-/-- `LibMappings::add_mapping` on the live list: displaced = every mapping whose range intersects -/
+/-- `LibMappings::add_mapping` on the live list. Displaced = every mapping whose range intersects the new
+range (`range(removal_start..end)` over the non-overlapping map) and the mapping stored under the same start
+key (`insert` replaces it; this matters only for empty ranges, which intersect nothing). -/
 def applyAdd (maps : List MapAdd) (x : MapAdd) : List MapAdd :=
-  maps.filter (fun m => !(decide (m.start < x.end_) && decide (x.start < m.end_))) ++ [x]
+  maps.filter (fun m => !((decide (m.start < x.end_) && decide (x.start < m.end_)) || m.start == x.start)) ++ [x]
 
 def lookupMap (maps : List MapAdd) (a : Nat) : Option MapAdd :=
   maps.find? (fun m => decide (m.start ≤ a) && decide (a < m.end_))
@@ -101,6 +135,9 @@ structure USample where
   cpu : Nat
   /-- callee-most first, as `get_sample_stack` builds it -/
   stack : List SFrame
+  /-- `thread.thread_label` at the time of the sample: the label frame of the per-CPU copies of this sample
+  (converter.rs:346-376; only read when `Config.ncpu ≠ 0`) -/
+  tlabel : String := ""
   /-- ghost (not part of the code's state, never read by the model's outputs): the pid / tid of the SAMPLE
   record this entry was created from; used to state the tagging invariant of C01 -/
   gpid : Nat := 0
@@ -141,8 +178,9 @@ structure St where
   tents : List TEntry := []
   usedPids : List (Nat × Nat) := []
   usedTids : List (Nat × Nat) := []
-  /-- `process_sample_datas`: buffers of removed processes, in removal order -/
-  parked : List (List USample × List (Nat × MapAdd)) := []
+  /-- `process_sample_datas`: buffers of removed processes, in removal order: samples, regular mapping
+  queue, and the pid (`try_load_perf_map(self.pid)` in `Process::finish`) -/
+  parked : List (List USample × List (Nat × MapAdd) × Nat) := []
   /-- `process_recycler` pools: name ↦ recycling data -/
   procPool : List (String × List ProcRecycle) := []
   /-- `current_sample_time` -/
@@ -331,7 +369,7 @@ def removeProc (s : St) (pid time : Nat) : St :=
       else p.pool
     let s := setTEnd s p.main.h time
     let s := setPEnd s p.h time
-    let s := if p.samples.isEmpty then s else { s with parked := s.parked ++ [(p.samples, p.mapq)] }
+    let s := if p.samples.isEmpty then s else { s with parked := s.parked ++ [(p.samples, p.mapq, p.pid)] }
     let s := match p.name with
       | some n => if s.cfg.reuse then
           { s with procPool := procPoolAdd s.procPool n { ph := p.h, mainTh := p.main.h, pool } } else s
@@ -406,6 +444,13 @@ def sampleStack (cfg : Config) (kernelMode : Bool) (ip : Nat) (chain : List Nat)
   if st.isEmpty then [SFrame.ip ip kernelMode]
   else if cfg.fold then (foldPrefixRev st.reverse).reverse else st
 
+/-- `make_thread_label` (process_threads.rs:202): the label of the thread's samples on the per-CPU tracks.
+Without `--reuse-threads` a thread's label is always the one made from its current name. -/
+def threadLabel (name : Option String) (pid tid : Nat) : String :=
+  match name with
+  | some n => n ++ " (pid: " ++ toString pid ++ ", tid: " ++ toString tid ++ ")"
+  | none => "Thread " ++ toString tid ++ " (pid: " ++ toString pid ++ ", tid: " ++ toString tid ++ ")"
+
 /-! ### One record -/
 
 def step (s : St) : Rec → St
@@ -418,7 +463,8 @@ def step (s : St) : Rec → St
     let th := { th with lastTs := some t }
     let p := putThread p tid th
     let u : USample := { th := th.h, t := conv s t, tmono := t, cpu := period,
-                         stack := sampleStack s.cfg km ip chain, gpid := pid, gtid := tid }
+                         stack := sampleStack s.cfg km ip chain, tlabel := threadLabel th.name pid tid,
+                         gpid := pid, gtid := tid }
     putProc s { p with samples := p.samples ++ [u] }
   | .fork pid tid ppid ptid t =>
     let start := conv s t
